@@ -282,6 +282,10 @@ def c12_r4(ctx):
                                 inner = min(lps, key=lambda l: len(l["body"])) if lps else None
                                 if inner and f.origins_of_operand(gc.args[1]) == inner["elem"]:
                                     ok = True
+        if not ok and f.kind == "closure":
+            # the binding is computed by a closure that something else calls once per source:
+            # with which source is outside this function
+            raise AnalysisError("idiom not recognised: %s binds sources in a closure called from elsewhere" % f.id)
         if ok:
             ctx.ok()
         else:
